@@ -186,7 +186,7 @@ def run_case(case):
     if fam == 'alias':
         # mutating steps right after row-retaining steps, applied to a subset of the resources
         tables = dsl.initial_tables(rng, nres=rng.choice([1, 2]), sizes=(1, 3, 101))
-        keepers = ['duplicate', 'join', 'sort_rows', 'dump_to_path', 'stream', 'checkpoint']
+        keepers = ['duplicate', 'join', 'sort_rows', 'dump_to_path', 'stream', 'checkpoint', 'unpivot', 'concatenate']
         mutators = ['add_field', 'set_type', 'find_replace', 'add_computed_field', 'user', 'rename_fields',
                     'delete_fields']
         t1, s1, sh = dsl.gen_program(rng, length=rng.randint(1, 2), ops=keepers, tables=tables)
